@@ -100,7 +100,13 @@ class Module:
         params = list(self._parameters.values())
         for m in self.submodules():
             params += m.parameters()
-        return params
+        # a parameter (or submodule) shared between several parents is reported once
+        unique_params = []; seen = set()
+        for p in params:
+            if id(p) not in seen:
+                seen.add(id(p))
+                unique_params.append(p)
+        return unique_params
     
     def submodules(self) -> list['Module']:
         return [m for m in self._submodules.values()]
